@@ -14,6 +14,7 @@ pub mod c02_fuse;
 pub mod c02_prec;
 pub mod c02_separator;
 pub mod c06_ifexpr;
+pub mod c08_inline;
 pub mod c08_scalar;
 pub mod c08_steps;
 pub mod c_scalar;
